@@ -42,7 +42,7 @@ def gotest(wt, pkgs, run=None):
 
 
 def main():
-    seed_dir, prop = sys.argv[1], sys.argv[2]
+    seed_dir, prop = os.path.abspath(sys.argv[1]), sys.argv[2]
     full = "--full" in sys.argv
     tier = "quick"
     if "--tier" in sys.argv:
